@@ -205,6 +205,14 @@ pub mod mpsc {
             Ok(())
         }
     }
+    impl<T> Clone for Sender<T> {
+        fn clone(&self) -> Self {
+            let mut g = self.chan.q.lock().unwrap();
+            g.2 += 1;
+            drop(g);
+            Sender { chan: self.chan.clone() }
+        }
+    }
     impl<T> Drop for Sender<T> {
         fn drop(&mut self) {
             let mut g = self.chan.q.lock().unwrap();
